@@ -13,7 +13,7 @@ META = {
     'required_obs': {'quick': ['cmp-dict', 'cmp-struct', 'cmp-hdf5', 'cmp-inline-window', 'window-dict', 'window-struct',
                                'window-hdf5', 'window-inline', 'permuted', 'extra-datasets', 'mapping', 'open-ended',
                                'frames-decoded', 'fastpath-permuted', 'fastpath-aligned', 'fastpath-view', 'fastpath-packed', 'same-data-object-reused',
-                               'repeated-channel-names', 'repeated-channel-names-across-sets', 'paths-as-Path', 'int-cast-out-of-range', 'float-cast-out-of-range', 'index-of-signed-zeros', 'float-cast-reference-written', 'float-cast-reference-refused', 'consecutive-windows-one-file',
+                               'repeated-channel-names', 'repeated-channel-names-across-sets', 'paths-as-Path', 'int-cast-out-of-range', 'float-cast-out-of-range', 'index-of-signed-zeros', 'window-bounds-as-numpy-integers', 'float-cast-reference-written', 'float-cast-reference-refused', 'consecutive-windows-one-file',
                                'index-channel-with-units', 'permuted-dataset-names']},
     'exhaustive_windows': {'quick': ['all windows 0 <= from < to <= N for N = 4, every source kind'],
                            'thorough': ['all windows 0 <= from < to <= N for N in 1..6, every source kind x input chunk {None,1,2}']},
@@ -22,6 +22,12 @@ META = {
 META['required_obs']['thorough'] = META['required_obs']['quick']
 
 SOURCES = ['inline', 'dict', 'struct', 'hdf5']
+
+
+def np_fits(v, t):
+    import numpy as np
+    i = np.iinfo(np.dtype(t))
+    return i.min <= v <= i.max
 
 
 def cases(tier, seed):
@@ -40,6 +46,9 @@ def cases(tier, seed):
     # declared casts of floats, some of which the target cannot hold: refused or written, the same for every kind of source
     for k in range(60 if tier == 'quick' else 1500):
         yield {'stratum': 'float-cast-out-of-range', 'index': k, 'kind': 'float-cast'}
+    # the window bounds given as numpy integers of several widths (what numpy computations hand back), larger data
+    for k in range(24 if tier == 'quick' else 500):
+        yield {'stratum': 'window-bounds-as-numpy-integers', 'index': k, 'kind': 'np-window'}
     # an index channel holding both zeros (-0.0 and 0.0 compare equal: which of them a minimum / maximum returns is up to
     # the reduction order, i.e. to the memory layout the source hands over)
     for k in range(30 if tier == 'quick' else 600):
@@ -182,6 +191,25 @@ def run_case(case):
             sp['write'].update({'source': src, 'perm_seed': None, 'extra': 0, 'input_chunk_size': r.choice(gen.chunk_choices(N))})
             compare(ref, sp, src, f'int-cast:{src}', True, decode=True)
         sample = {'kind': 'int cast', 'rows': N, 'channels': [(o['name'], o['data']['dtype'], o.get('cast_dtype')) for o in base['ops'] if o['op'] == 'channel'][:6]}
+    elif case['kind'] == 'np-window':
+        r = gen.rng(seed, PROP, case['stratum'], case['index'])
+        N = r.choice([187, 255, 256, 300])
+        a = r.choice([100, 127, 128, 200, N - 50])
+        b = r.choice([N, N - 1, a + 87 if a + 87 <= N else N, None])
+        fa = r.choice(['uint8', 'int8', 'int16', 'uint16', 'int64', 'intp'])
+        fa = fa if np_fits(a, fa) else 'int64'
+        ta = r.choice(['int16', 'uint16', 'int64', 'uint8', None])
+        ta = ta if (b is None or ta is None or np_fits(b, ta)) else 'int64'
+        base = gen.frame_spec(r, mx=8192, rows=N, nch=2, sources=('inline',), layouts=('C',), max_width=3, casts=False)
+        base['write'] = {'source': 'inline', 'output_chunk_size': 2 ** 16}
+        ref = run(presliced(base, a, b))
+        bump('window-bounds-as-numpy-integers')
+        for src in SOURCES:
+            sp = copy.deepcopy(base)
+            sp['write'].update({'source': src, 'from_idx': a, 'to_idx': b, 'idx_as': [fa, ta],
+                                'input_chunk_size': r.choice([None, 60, 70, 1, N])})
+            compare(ref, sp, ('%s-window' % src if src == 'inline' else src + ':window'), f'{src}:npwin:{fa}:{ta}:{sp["write"]["input_chunk_size"]}', True, decode=True)
+        sample = {'kind': 'window bounds as numpy integers', 'rows': N, 'window': [a, b], 'types': [fa, ta]}
     elif case['kind'] == 'signed-zeros':
         r = gen.rng(seed, PROP, case['stratum'], case['index'])
         N = r.choice([2, 3, 5, 8, 9, 16, 17, 33])
